@@ -152,10 +152,27 @@ pub fn link_v02_docs() -> Vec<(String, Value)> {
     out
 }
 
+/// Members that are present but empty (empty string, empty map, empty list, zero) - a serialiser
+/// that skips "empty" values would drop them.
+fn present_but_empty_docs() -> Vec<(String, Value)> {
+    let b = json!({"id": ""});
+    vec![
+        ("slsa01/empty/recipe-strings".into(), json!({"builder": b, "recipe": {"type": "", "definedInMaterial": 0, "entryPoint": "", "arguments": "", "environment": ""}})),
+        ("slsa01/empty/metadata".into(), json!({"builder": {"id": "x"}, "metadata": {"buildInvocationId": "", "completeness": {}, "reproducible": false}})),
+        ("slsa01/empty/materials".into(), json!({"builder": {"id": "x"}, "materials": [{"uri": "", "digest": {}}]})),
+        ("slsa01/empty/two-timestamps".into(), json!({"builder": {"id": "x"}, "metadata": {"buildStartedOn": "2020-08-19T08:38:00Z", "buildFinishedOn": "2021-01-01T00:00:00.25Z"}})),
+        ("slsa02/empty/invocation".into(), json!({"builder": {"id": "x"}, "buildType": "", "invocation": {"configSource": {"uri": "", "digest": {}, "entryPoint": ""}, "parameters": "", "environment": ""}, "buildConfig": "", "materials": []})),
+        ("slsa02/empty/metadata".into(), json!({"builder": {"id": "x"}, "buildType": "t", "metadata": {"buildInvocationId": "", "completeness": {"parameters": false, "environment": false, "materials": false}, "reproducible": false}})),
+        ("link02/empty/everything".into(), json!({"name": "", "materials": {}, "env": {}, "command": [""], "byproducts": {"stdout": "", "stderr": "", "return-value": 0}})),
+        ("link02/empty/digest-map".into(), json!({"name": "n", "materials": {"a": {}}, "env": {"": ""}, "command": [], "byproducts": {}})),
+    ]
+}
+
 pub fn predicate_docs() -> Vec<(String, Value)> {
     let mut v = link_v02_docs();
     v.extend(slsa_v01_docs());
     v.extend(slsa_v02_docs());
+    v.extend(present_but_empty_docs());
     v
 }
 
